@@ -17,8 +17,10 @@ CLAIMED = {
              'exceptions must propagate. Seeded sampling of (model, dt, sampling ratio, rows, cutoff, solver, '
              'precision, vectorize, inputs); evidence, not proof.',
         note='Trusted: numpy/scipy, the RefNet reference semantics of the five library operators, DOP853@1e-12 as '
-             'ground truth. Default (numpy) backend in the quick tier; other backends in the thorough tier where '
-             'built. Known findings KF-C03-* are listed in known_findings.json.',
+             'ground truth. Backends: numpy and torch (own euler/scipy loops, recorded evaluation by evaluation), jax '
+             '(lax.scan euler/heun, scipy wrapper, diffrax: rows against the reference iterates / reference solution, no '
+             'per-evaluation record possible), fortran (f2py build per run, thorough tier only). Known findings '
+             'KF-C03-* are listed in known_findings.json.',
         ref='§3 C03'),
     'C07': dict(
         technique=TECH + 'override histories over aliased template objects vs a reference value dict, judged by a '
